@@ -42,14 +42,16 @@ C16 ==
   /\ (E.parsed /\ E.multiline # (E.live > 1)) => Report("C16", "layout")
   /\ (E.nhash # 1) => Report("C07", IF E.known = "" THEN "dict" ELSE E.known)
 
+\* F11 (known finding): a one-line comment "+build ..." is taken by go/printer for a build constraint and hoisted
+C15Key(k) == IF E.cl = "buildtag" THEN "F11" ELSE k
 C15 ==
   /\ E.ev = "c15"
   /\ Drift(E.base, E.rb, "c15 base")
   /\ Drift(E.variant, E.rv, "c15 variant")
-  /\ (E.rv.fstatus # "nil" \/ E.rb.fstatus # "nil") => Report("C15", "render fails " \o E.cont)
-  /\ (E.rv.fstatus = "nil" /\ E.rb.fstatus = "nil" /\ E.ctv # E.ctb) => Report("C15", "code tokens changed " \o E.cont \o " " \o E.mode)
-  /\ (E.rv.fstatus = "nil" /\ ~E.found) => Report("C15", "comment text lost " \o E.cl)
-  /\ (E.rv.fstatus = "nil" /\ E.found /\ E.style # E.wantstyle) => Report("C15", "comment style " \o E.cl)
+  /\ (E.rv.fstatus # "nil" \/ E.rb.fstatus # "nil") => Report("C15", C15Key("render fails " \o E.cont))
+  /\ (E.rv.fstatus = "nil" /\ E.rb.fstatus = "nil" /\ E.ctv # E.ctb) => Report("C15", C15Key("code tokens changed " \o E.cont \o " " \o E.mode))
+  /\ (E.rv.fstatus = "nil" /\ ~E.found) => Report("C15", C15Key("comment text lost " \o E.cl))
+  /\ (E.rv.fstatus = "nil" /\ E.found /\ E.style # E.wantstyle) => Report("C15", C15Key("comment style " \o E.cl))
 
 C08 ==
   /\ E.ev = "c08"
